@@ -27,7 +27,16 @@ func DeepCast(val Value, typ ast.Type, span errors.Span, allowCasts bool) (*Valu
 			}
 			return NewValueOption(innerCast), nil
 		}
-		return NewValueOption(&val), nil
+		// `null` is how an absent value arrives from dynamic sources (such as JSON).
+		if val.Kind() == NullValueKind {
+			return NewNoneOption(), nil
+		}
+		// A value which is no option is wrapped, but only if it conforms to the option's inner type.
+		innerOnly, castErr := DeepCast(val, typ.(ast.OptionType).Inner, span, allowCasts)
+		if castErr != nil {
+			return nil, castErr
+		}
+		return NewValueOption(innerOnly), nil
 	}
 
 	switch val.Kind() {
